@@ -133,6 +133,7 @@ type Conf struct {
 	SyncStderr  io.Writer
 	Stderr      io.Writer
 	Translate   bool // custom runner with a mount-style address translation
+	USC         string // "" no UnixSocketConfig | empty | tmpdir (TempDir=/run/hostsock, created here)
 }
 
 func (c Conf) String() string {
@@ -149,6 +150,9 @@ func (c Conf) String() string {
 	if c.Translate {
 		s += "+xlate"
 	}
+	if c.USC != "" {
+		s += "+usc-" + c.USC
+	}
 	return s
 }
 
@@ -159,6 +163,7 @@ func (r *Run) ConfFromParams() Conf {
 		Mux:    r.Spec.P("mux", "0") == "1",
 		TLS:    r.Spec.P("tls", "none"),
 		Launch: r.Spec.P("launch", "cmd"),
+		USC:    r.Spec.P("usc", ""),
 	}
 }
 
@@ -172,7 +177,8 @@ func PluginSet(proto string, sh *plugins.Shared) plugin.PluginSet {
 	// several names for the same implementation: concurrent dispenses use
 	// different names, which makes each server object attributable
 	return plugin.PluginSet{PluginName: &plugins.NetRPC{Sh: sh},
-		"cmd1": &plugins.NetRPC{Sh: sh, Name: "cmd1/"}, "cmd2": &plugins.NetRPC{Sh: sh, Name: "cmd2/"}, "cmd3": &plugins.NetRPC{Sh: sh, Name: "cmd3/"}}
+		"cmd1": &plugins.NetRPC{Sh: sh, Name: "cmd1/"}, "cmd2": &plugins.NetRPC{Sh: sh, Name: "cmd2/"}, "cmd3": &plugins.NetRPC{Sh: sh, Name: "cmd3/"},
+		"fail1": &plugins.NetRPC{Sh: sh, Name: "fail1/", Fail: true}, "fail2": &plugins.NetRPC{Sh: sh, Name: "fail2/", Fail: true}}
 }
 
 // ServeConfig builds the plugin side.
@@ -241,6 +247,14 @@ func (r *Run) ClientConfig(c Conf) *plugin.ClientConfig {
 		}
 	default:
 		cfg.Cmd = cmd
+	}
+	switch c.USC {
+	case "empty":
+		cfg.UnixSocketConfig = &plugin.UnixSocketConfig{}
+	case "tmpdir":
+		r.W.Mkdir("/run")
+		r.W.Mkdir("/run/hostsock")
+		cfg.UnixSocketConfig = &plugin.UnixSocketConfig{TempDir: "/run/hostsock"}
 	}
 	if c.TweakClient != nil {
 		c.TweakClient(cfg)
